@@ -25,7 +25,7 @@ fn main() {
     let cmd = args.get(1).map(|s| s.as_str()).unwrap_or("");
     match cmd {
         "corr" => {
-            // corr <unit> <tier> <seed>; a watchdog turns 25 s of silence into a reported hang
+            // corr <unit> <tier> <seed>; a watchdog turns 120 s of silence into a reported hang
             let unit = args[2].clone();
             let tier = args[3].clone();
             let seed: u64 = args[4].parse().unwrap();
@@ -54,7 +54,7 @@ fn main() {
             let mut w = BufWriter::new(stdout.lock());
             let (mut n, mut last) = (0u64, String::new());
             loop {
-                match rx.recv_timeout(std::time::Duration::from_secs(25)) {
+                match rx.recv_timeout(std::time::Duration::from_secs(120)) {
                     Ok(Some(l)) if l == "__UNKNOWN_UNIT__" => {
                         eprintln!("unknown unit");
                         std::process::exit(2);
